@@ -295,6 +295,21 @@ def sliceTo (x n : Val) : M Val := do
   | .bytes b => pure (.bytes (b.take k))
   | .bytearray b => pure (.bytearray (b.take k))
   | _ => throw .unsupported
+/-- `s.encode('utf8')` -/
+def encodeUtf8 : Val → M Val
+  | .str s => pure (.bytes s.toUTF8.toList)
+  | .bytes _ | .bytearray _ => throw .attributeError
+  | _ => throw .unsupported
+/-- `x[lo:hi] = v` on a bytearray for `lo, hi ≥ 0` (Python clamps both ends to `len(x)` and `hi` to at least `lo`) -/
+def setSlice (x lo hi v : Val) : M Val := do
+  let l ← natOf lo
+  let h ← natOf hi
+  match x, v with
+  | .bytearray b, .bytes d | .bytearray b, .bytearray d =>
+    let l' := Nat.min l b.length
+    let h' := Nat.max l' (Nat.min h b.length)
+    pure (.bytearray (b.take l' ++ d ++ b.drop h'))
+  | _, _ => throw .unsupported
 /-- `x[-k]` for a literal `k ≥ 1` on a tuple / list (the k-th element from the end) -/
 def getItemNeg (c : Val) (k : Nat) : M Val :=
   match c with
